@@ -396,8 +396,10 @@ def render(fn, twin=False, bind_stores=False, declared=None, entry_declares=()):
     else:
         lines += r_stmts(fn["body"], ind, twin, ctx)
     if fn.get("closure"):
-        lines.append(f"{IND}return {name}")
-        lines.append(f"{name} = make_{name}()")
+        lines.append(f"{IND}def get_cl():")
+        lines.append(f"{IND}{IND}return ({', '.join(c for c, _ in fn['closure'])}, )")
+        lines.append(f"{IND}return {name}, get_cl")
+        lines.append(f"{name}, get_cl = make_{name}()")
     return "\n".join(lines) + "\n"
 
 
@@ -781,6 +783,14 @@ def functions(flags=None, want_gen=None):
                 for x in targets:
                     mark(bound, x)
                 return pre + [("assign", targets, e)]
+            if arity > 1 and t[0] == "t" and all(x[0] == "n" for x in t[1]) and draw(st.integers(0, 3)) == 0:
+                # swap / rotate idiom: the right-hand side names the targets themselves
+                names = [x[1] for x in t[1]]
+                k = draw(st.integers(1, len(names) - 1))
+                rot = names[k:] + names[:k]
+                e = (draw(st.sampled_from(["tuple", "list"])), [("var", n) for n in rot])
+                mark(bound, t)
+                return pre + [("assign", [t], e)]
             if arity == -2:
                 e = ("tuple", [int_expr(bound, 1), ("tuple", [int_expr(bound, 1), int_expr(bound, 1)])])
             elif arity == -3:
@@ -1007,6 +1017,21 @@ def functions(flags=None, want_gen=None):
             pool = sorted(v for v in bound if v in LOCALS)
             items = [("var", v) for v in pool[:3]] or [("int", 0)]
             body.append(("return", ("tuple", items) if tail == 1 else items[0]))
+        decls = []
+        if fl.global_decl and draw(st.integers(0, 5)) == 0:
+            gname = draw(st.sampled_from(["G1", "G2"]))
+            decls.append(("global", gname))
+            if draw(st.booleans()):
+                pos = draw(st.integers(0, len(body)))
+                body.insert(pos, ("assign", [("n", gname)], ("bin", "+", ("var", gname), ("int", 1))))
+        if fl.nonlocal_decl and closure and draw(st.integers(0, 2)) == 0:
+            decls.append(("nonlocal", "cl"))
+            pos = draw(st.integers(0, len(body)))
+            body.insert(pos, draw(st.sampled_from([
+                ("assign", [("n", "cl")], ("bin", "+", ("var", "cl"), ("int", 1))),
+                ("aug", ("n", "cl"), "+", ("int", 2)),
+            ])))
+        body = decls + body
         fn = {"name": "f", "params": params, "body": body, "gen": gen, "closure": closure_vars}
         # names read (or deleted) but bound nowhere in f would be *globals*; make them genuine
         # locals with an unreachable binding so that reading them is an UnboundLocalError
